@@ -538,7 +538,7 @@ class ITerm2Image(GraphicsImage, metaclass=ITerm2ImageMeta):
             print(
                 first_frame,
                 "\r",
-                CURSOR_UP % (lines - 1),
+                CURSOR_UP % (lines - 1) if lines > 1 else "",
                 sep="",
                 end="",
                 flush=True,
